@@ -69,6 +69,9 @@ def _gen(rng, env, depth, ops):
     if r < 0.33:
         return ['neg', _gen(rng, env, depth - 1, ops)]
     op = rng.choice(ops)
+    if op == '>>' and rng.random() < 0.4:
+        # unary minus under a right shift: `-7 >> 1` is (-7) >> 1 = -4, not -(7 >> 1) = -3
+        return ['bin', op, ['neg', ['num', rng.choice([1, 3, 7, 13, 27, 255, 1001])]], ['num', rng.randint(1, 4)]]
     return ['bin', op, _gen(rng, env, depth - 1, ops), _gen(rng, env, depth - 1, ops)]
 
 
